@@ -13,10 +13,13 @@ Containers == {"array-int", "array-float", "array-float-F", "sample-int", "sampl
 Form(t, xs, named) == [t |-> t, xs |-> xs, named |-> named]
 Forms == {Form("absent", <<>>, <<>>), Form("pos", <<0>>, <<0>>), Form("pos", <<1>>, <<0>>), Form("name", <<1>>, <<1>>),
           Form("list", <<0, 1>>, <<0, 0>>), Form("list", <<1, 0>>, <<1, 0>>), Form("list", <<1>>, <<1>>),
-          Form("list", <<0>>, <<0>>), Form("list", <<1, 1>>, <<0, 1>>)}
+          Form("list", <<0>>, <<0>>), Form("list", <<1, 1>>, <<0, 1>>),
+          \* named = 2: the position written as a NEGATIVE index (counted from the last channel)
+          Form("pos", <<1>>, <<2>>), Form("list", <<0, 1>>, <<0, 2>>), Form("list", <<1, 0>>, <<2, 2>>), Form("list", <<0>>, <<2>>)}
 Forms4 == {Form("list", <<0, 2, 1, 3>>, <<0, 0, 0, 0>>), Form("list", <<0, 2, 1, 3>>, <<1, 1, 1, 1>>), Form("list", <<1, 1, 3>>, <<0, 1, 0>>),
            Form("list", <<3, 0>>, <<0, 1>>), Form("list", <<2, 3, 1>>, <<1, 0, 0>>), Form("list", <<0, 1, 2, 3>>, <<0, 0, 0, 0>>),
-           Form("list", <<3, 2, 1, 0>>, <<0, 0, 1, 1>>), Form("absent", <<>>, <<>>), Form("pos", <<2>>, <<0>>), Form("name", <<3>>, <<1>>)}
+           Form("list", <<3, 2, 1, 0>>, <<0, 0, 1, 1>>), Form("absent", <<>>, <<>>), Form("pos", <<2>>, <<0>>), Form("name", <<3>>, <<1>>),
+           Form("list", <<0, 3>>, <<0, 2>>), Form("list", <<3, 1, 0>>, <<2, 2, 2>>), Form("pos", <<0>>, <<2>>)}
 Col3(c) == [i \in 1..Len(c) |-> c[Len(c) + 1 - i]]                   \* column 3: column 1 reversed
 Col4(c) == [i \in 1..Len(c) |-> IF i = 1 THEN 4 ELSE 2]             \* column 4: fixed pattern
 NeedsNames(f) == \E i \in 1..Len(f.named) : f.named[i] = 1
